@@ -654,15 +654,15 @@ class Process(StateMachine, persistence.Savable, metaclass=ProcessStateMachineMe
         self._setup_event_hooks()
 
         # Runtime variables, set initial states
-        self._future = persistence.SavableFuture()
-        self._event_helper = EventHelper(ProcessListener)
-        self._logger = None
-        self._communicator = None
-
         if 'loop' in load_context:
             self._loop = load_context.loop
         else:
             self._loop = asyncio.get_event_loop()
+
+        self._future = persistence.SavableFuture(loop=self._loop)
+        self._event_helper = EventHelper(ProcessListener)
+        self._logger = None
+        self._communicator = None
 
         self._state: process_states.State = self.recreate_state(saved_state['_state'])
 
